@@ -13,6 +13,9 @@ let rec range a b = if a >= b then [] else a :: range (a + 1) b
 let content_good d n = List.map (unit_good d) (range 0 n)
 let content_bad d n = if n = 0 then [] else List.map (unit_good d) (range 0 (n - 1)) @ [unit_bad d]
 
+(* Store.AutoSaveIndex of the script being evaluated (field autosave=0|1, default 1) *)
+let autosv = ref true
+
 type blobinfo = { bid : int; bchunks : int; bman : bool }
 
 let parse_script (s : string) =
@@ -53,6 +56,7 @@ let parse_script (s : string) =
     match String.split_on_char ':' x with
     | "crash" :: j :: rest -> (parse_call rest, Some (int_of_string j))
     | l -> (parse_call l, None) in
+  autosv := (field "autosave" <> "0");
   (blobs, List.map parse_hist (items (field "hist")), parse_call (String.split_on_char ':' (field "final")))
 
 (* digest-and-size verification: the name of the blob whose content this is, 0 for anything else *)
@@ -65,6 +69,7 @@ let shuffle _ l = l
 (* configuration of the model: re-read from the Go source by the translator (Generated/GC10.v) *)
 let inplace = src_inplace
 let ufirst = src_unlink_first
+
 
 let fname p =
   match p with
@@ -129,13 +134,13 @@ let rec nat_len l = match l with [] -> 0 | _ :: r -> 1 + nat_len r
    ones completed (Proofs/OciCrash.v seq_cut); returns the store reopened on what was left *)
 let rec crash_call h s ops j =
   match ops with
-  | [] -> run_hop h shuffle inplace ufirst s (Crashed (SaveIndex, nat_of_int 0))
+  | [] -> run_hop h shuffle inplace ufirst !autosv s (Crashed (SaveIndex, nat_of_int 0))
   | o :: r ->
-    let n = nat_len (op_steps h shuffle inplace ufirst s o) in
-    if j <= n then run_hop h shuffle inplace ufirst s (Crashed (o, nat_of_int j))
-    else crash_call h (run_op h shuffle inplace ufirst s o) r (j - n)
+    let n = nat_len (op_steps h shuffle inplace ufirst !autosv s o) in
+    if j <= n then run_hop h shuffle inplace ufirst !autosv s (Crashed (o, nat_of_int j))
+    else crash_call h (run_op h shuffle inplace ufirst !autosv s o) r (j - n)
 
-let run_call h s ops = List.fold_left (fun s o -> run_op h shuffle inplace ufirst s o) s ops
+let run_call h s ops = List.fold_left (fun s o -> run_op h shuffle inplace ufirst !autosv s o) s ops
 
 let run_hist h hist =
   List.fold_left (fun s (ops, c) ->
@@ -146,8 +151,8 @@ let rec locate h s ops j =
   match ops with
   | [] -> None
   | o :: r ->
-    let n = nat_len (op_steps h shuffle inplace ufirst s o) in
-    if j <= n then Some (s, o) else locate h (run_op h shuffle inplace ufirst s o) r (j - n)
+    let n = nat_len (op_steps h shuffle inplace ufirst !autosv s o) in
+    if j <= n then Some (s, o) else locate h (run_op h shuffle inplace ufirst !autosv s o) r (j - n)
 
 (* initialisation: final=init, no history: the first oci.New on an empty directory *)
 let is_init sc =
@@ -172,20 +177,21 @@ let () =
       let h = hfun blobs in
       let s = run_hist h hist in
       Printf.printf "%s\n" (String.trim (Printf.sprintf "%s STEPS %s" id
-        (String.concat " " (List.map show_step (steps_seq h shuffle inplace ufirst s fin)))))
+        (String.concat " " (List.map show_step (steps_seq h shuffle inplace ufirst !autosv s fin)))))
     | id :: "K" :: j :: sc :: _ ->
       let (blobs, hist, fin) = parse_script sc in
       let h = hfun blobs in
       let s = run_hist h hist in
       let j = int_of_string j in
-      let fsk = crash_seq h shuffle inplace ufirst s fin (nat_of_int j) in
+      let fsk = crash_seq h shuffle inplace ufirst !autosv s fin (nat_of_int j) in
       let univ = List.map (fun b -> n_of_int b.bid) blobs in
       let rec_ok =
         match locate h s fin j with
-        | Some (sj, o) -> recoverableb h univ sj.sfs fsk (run_op h shuffle inplace ufirst sj o).sfs
+        | Some (sj, o) -> recoverableb h univ sj.sfs fsk (run_op h shuffle inplace ufirst !autosv sj o).sfs
         | None -> let s1 = run_call h s fin in recoverableb h univ s1.sfs fsk s1.sfs in
       Printf.printf "%s STATE %s%s\n" id (show_fs blobs (int_of_nat s.sctr + nat_len fin + 1) fsk)
-        (if rec_ok then "" else " MODEL-NOT-RECOVERABLE")
+        (* with AutoSaveIndex off the predicate is known to fail (C10_crash_safe_refuted_autosave_off) *)
+        (if rec_ok || not !autosv then "" else " MODEL-NOT-RECOVERABLE")
     | id :: "R" :: sc :: _ ->
       let (blobs, hist, fin) = parse_script sc in
       let h = hfun blobs in
